@@ -494,6 +494,6 @@ reg("C09", needs_cli=True,
              3: "results whose responses completed before the attack command was killed are missing from its output (results are held back instead of written as they arrive)"},
     diffs={10: "gob frame boundaries of the model do not cover the record boundaries", 11: "JSON line count differs from the record count"},
     assumptions=["gob payload is opaque; only its length-prefixed framing is modelled"],
-    level_text="frames_cut_prefix (length-prefixed frames: every cut yields exactly the complete frames before it) and lines_cut_prefix (newline framing) are proved in Coq for every stream and every cut offset; json_no_raw_newline (proved: the JSON encoder's text of a result in the domain contains no raw line break) shows it emits exactly one line per record; tie: every cut offset of every generated stream decoded by the real decoders.",
+    level_text="json_cut_decodes_written (end to end on the JSON codec model: a stream of results cut at any byte offset decodes to exactly the results written completely before the cut) and csv_cut_at_boundary (a CSV stream cut at a record boundary decodes to the records written so far); frames_cut_prefix (length-prefixed frames: every cut yields exactly the complete frames before it) and lines_cut_prefix (newline framing) are proved in Coq for every stream and every cut offset; json_no_raw_newline (proved: the JSON encoder's text of a result in the domain contains no raw line break) shows it emits exactly one line per record; tie: every cut offset of every generated stream decoded by the real decoders.",
     technique="Coq prefix lemmas for the two framings over all cut offsets; exhaustive cut enumeration on the implementation",
     timeout={"quick": 900, "thorough": 3000})
